@@ -36,6 +36,7 @@ func runC18(c *Ctx) {
 	c18NoCopy(c)
 	c18ReadOrdinals(c)
 	c18FileID(c)
+	c18MissingKey(c)
 }
 
 // c18FileID: the file identifier is part of the AAD of every module and is
@@ -794,4 +795,122 @@ func c18NoCopy(c *Ctx) {
 		c.Check(rule, chk.fn+" consults "+p.FieldName(chk.f), obj.Pos(), ok, chk.fn+" no longer looks at "+p.FieldName(chk.f)+": column chunks could be spliced verbatim (in clear, or under another key) into an encrypted file")
 	}
 	c.Min(rule, 2)
+}
+
+// c18MissingKey: a column whose key the KeyRetriever does not have must not
+// look like a column that is not encrypted. The branch of OpenFile that
+// accepts ErrKeyNotFound records the fact in a field of the column chunk, and
+// every consumer of the chunk's decryption key consults that field too: the
+// functions of FileColumnChunk (and free functions) that load decryptionKey
+// load it themselves, and for a consumer that is a method of another type
+// (the page reader) some method of that type does.
+func c18MissingKey(c *Ctx) {
+	rule := "C18.missingkey"
+	p := c.P
+	keyField := p.LookupField("FileColumnChunk", "decryptionKey")
+	fcc := p.LookupType("FileColumnChunk")
+	if !c.Anchor(rule, "FileColumnChunk.decryptionKey", keyField != nil && fcc != nil) {
+		return
+	}
+	own := fieldsOfStruct(fcc)
+	// the field recorded on the ErrKeyNotFound branch
+	var marker *types.Var
+	for _, fn := range p.ModuleSSAFuncs() {
+		if fn.Origin() != nil || fn.Blocks == nil {
+			continue
+		}
+		storesKey := false
+		allInstrs(fn, false, func(_ *ssa.Function, ins ssa.Instruction) {
+			if st, ok := ins.(*ssa.Store); ok {
+				if fs, _, _ := fieldChain(st.Addr); len(fs) > 0 && fs[len(fs)-1] == keyField {
+					storesKey = true
+				}
+			}
+		})
+		if !storesKey {
+			continue
+		}
+		for _, b := range fn.Blocks {
+			if len(b.Instrs) == 0 {
+				continue
+			}
+			ifi, ok := b.Instrs[len(b.Instrs)-1].(*ssa.If)
+			if !ok {
+				continue
+			}
+			call, ok := ifi.Cond.(*ssa.Call)
+			if !ok || calleeName(call) != "errors.Is" || len(call.Call.Args) != 2 {
+				continue
+			}
+			isNotFound := false
+			for _, o := range Origins(call.Call.Args[1], OriginOpts{}) {
+				if o.Kind == OrgGlobal && o.Val.Name() == "ErrKeyNotFound" {
+					isNotFound = true
+				}
+			}
+			if !isNotFound {
+				continue
+			}
+			for _, d := range fn.Blocks {
+				if !b.Succs[0].Dominates(d) {
+					continue
+				}
+				for _, ins := range d.Instrs {
+					if st, ok := ins.(*ssa.Store); ok {
+						if fs, _, _ := fieldChain(st.Addr); len(fs) > 0 && own[fs[len(fs)-1]] && fs[len(fs)-1] != keyField {
+							marker = fs[len(fs)-1]
+						}
+					}
+				}
+			}
+		}
+	}
+	c.Check(rule, "a column whose key is not available is marked as such", token.NoPos, marker != nil, "the branch that accepts ErrKeyNotFound for a column key records nothing on the column chunk: a nil decryption key is what an unencrypted column has, so the column is later read, or copied verbatim into another file, as if it were plaintext")
+	if marker == nil {
+		return
+	}
+	loads := func(fn *ssa.Function, f *types.Var) bool {
+		found := false
+		allInstrs(fn, true, func(_ *ssa.Function, ins ssa.Instruction) {
+			if u, ok := ins.(*ssa.UnOp); ok && u.Op == token.MUL {
+				if fs, _, _ := fieldChain(u.X); len(fs) > 0 && fs[len(fs)-1] == f {
+					found = true
+				}
+			}
+		})
+		return found
+	}
+	n := 0
+	for _, fn := range p.ModuleSSAFuncs() {
+		if fn.Origin() != nil || fn.Blocks == nil || fn.Parent() != nil || !loads(fn, keyField) {
+			continue
+		}
+		// the function that resolves the keys is not a consumer
+		resolves := false
+		allInstrs(fn, false, func(_ *ssa.Function, ins ssa.Instruction) {
+			if st, ok := ins.(*ssa.Store); ok {
+				if fs, _, _ := fieldChain(st.Addr); len(fs) > 0 && fs[len(fs)-1] == keyField {
+					resolves = true
+				}
+			}
+		})
+		if resolves {
+			continue
+		}
+		n++
+		ok := loads(fn, marker)
+		if !ok && fn.Signature.Recv() != nil {
+			rt := namedOf(fn.Signature.Recv().Type())
+			if rt != nil && rt.Origin() != fcc.Origin() {
+				for _, g := range p.ModuleSSAFuncs() {
+					if g.Signature.Recv() != nil && namedOf(g.Signature.Recv().Type()) != nil && namedOf(g.Signature.Recv().Type()).Origin() == rt.Origin() && loads(g, marker) {
+						ok = true
+					}
+				}
+			}
+		}
+		c.Check(rule, FuncKey(fn)+" tells an unavailable key from no encryption", fn.Pos(), ok, FuncKey(fn)+" decides on FileColumnChunk.decryptionKey alone and never looks at "+p.FieldName(marker)+": a column whose key is not available is handled as if it were not encrypted (ciphertext decoded as page data, or copied verbatim into an unencrypted file)")
+	}
+	c.Stats[rule+".consumers_of_the_key"] = n
+	c.Min(rule, 5)
 }
